@@ -8,60 +8,65 @@ ROOT = os.path.dirname(os.path.dirname(os.path.abspath(__file__)))
 
 CLAIMS = {
     'C01': dict(cat='proof',
-                text='Function-level panic-freedom contracts for the panic sites the property names (get_indent and its callers in CssBuf, ValueRange::new/next, Color::cmp/cmp_chan, Number::into_integer, UnitSet exponent arithmetic, index_of): every obligation is discharged for ALL arguments of the real function by Kani/CBMC or Verus; not a proof about whole compilations.',
-                note='Covers only the listed leaf functions; parser, evaluator recursion depth, resolve_ref, Display/fmt and error rendering are unverified. Bounded stand-ins (CssBuf buffers <= 4 bytes, UnitSet <= 2 entries, long_indent lengths) are listed in evidence and not counted as proved.',
+                text='Function-level panic-freedom contracts for the panic sites the property names (get_indent and its callers in CssBuf, long_indent, ValueRange::new/next, Color::cmp/cmp_chan, Number::into_integer, UnitSet exponent arithmetic, index_of, CssBuf::end_block, the framing tail of into_buffer): every counted obligation is discharged for ALL arguments of the real function by Kani/CBMC or, unbounded, by Verus (long_indent for every length, CssBuf block bookkeeping for every buffer, into_buffer tail for every buffer); not a proof about whole compilations.',
+                note='Covers only the listed leaf functions; parser, evaluator recursion depth, resolve_ref, Display/fmt and error rendering (SourcePos::show) are unverified. Bounded stand-ins (CssBuf buffers <= 4 bytes in the Kani twin, UnitSet <= 2 entries) are listed in evidence and not counted as proved.',
                 tech='Kani function contracts / proof harnesses on the real crate + Verus on extracted text',
-                ref='DESIGN.md §5 C01'),
+                ref='DESIGN.md §5 C01, §11'),
     'C07': dict(cat='proof',
-                text='The final-newline and charset/BOM clauses are the postcondition of the tail of CssData::into_buffer, verified by Verus for every byte vector (unbounded) on text extracted verbatim from /repo each run; brace bookkeeping of CssBuf::start_block/end_block/add_one/pop_nl/opt_nl is discharged by Kani (bounded buffer prefix).',
-                note='Item writers (what bytes reach the buffer), braces inside values/strings, "no line break in compressed output" are not covered. Verus type stubs and vstd Vec specs trusted.',
-                tech='Verus on extracted into_buffer tail + Kani harnesses on CssBuf',
-                ref='DESIGN.md §5 C07'),
+                text='The final-newline and charset/BOM clauses are the postcondition of the tail of CssData::into_buffer, verified by Verus for every byte vector (unbounded) on text extracted from /repo each run (Kani twin on buffers <= 4 bytes gives counterexamples); the brace bookkeeping of CssBuf::start_block/end_block/add_one/add_str/pop_nl/opt_nl is verified by Verus for every buffer and indentation, with the lemma layer L-braces (start_block +1, end_block -1 on the brace balance; indent == 2 * balance is invariant) over those contracts; do_indent/get_indent/long_indent by Kani contracts and Verus.',
+                note='Item writers (what bytes reach the buffer), braces inside values/strings, "no line break in compressed output" (Property::write etc.) are not covered. Verus type stubs, vstd Vec/str specs and one assumed byte-string literal are trusted and listed.',
+                tech='Verus on extracted into_buffer tail and CssBuf + lemma layer; Kani harnesses on CssBuf and get_indent',
+                ref='DESIGN.md §5 C07, §11'),
     'C11': dict(cat='proof',
-                text='Unit::scale_to is checked against the CSS Values ratio table for every ordered pair of the 28 named units (complete, one named assertion per pair), and lifted through UnitSet::scale_to_unit and Numeric::partial_cmp/as_unit (representative unit pairs, probe magnitudes: bounded); UnitSet Mul/Div exponent algebra bounded to 2 entries. The +/- arms of Operator::eval are thorough-tier attempts only (CBMC has never finished them) and are not counted.',
-                note='Known findings: em/ex/ch, vmin/vmax, %/fr are convertible in rsass (10 named pairs). simplify()\'s scale factor (powi), math.div and Operator::eval are not covered.',
-                tech='Kani proof harnesses, exhaustive over unit pairs, oracle = CSS ratio table',
-                ref='DESIGN.md §5 C11'),
+                text='Unit::scale_to is checked against the CSS Values ratio table for every ordered pair of the 28 named units (complete, one named assertion per pair), and lifted through UnitSet::scale_to_unit and Numeric::partial_cmp/as_unit (representative unit pairs, probe magnitudes: bounded), and through the numeric arms of + and - of Operator::eval (extracted ranges; 11 representative unit pairs, all left magnitudes up to 1e9: bounded); UnitSet Mul/Div exponent algebra bounded to 2 entries.',
+                note="Known findings: em/ex/ch, vmin/vmax, %/fr are convertible in rsass (10 named pairs). simplify()'s scale factor and the compound-unit branch of UnitSet::scale_to (powi is over-approximated by CBMC), math.div and Operator::eval as a whole (thorough-tier attempts only) are not covered.",
+                tech='Kani proof harnesses, exhaustive over unit pairs, oracle = CSS ratio table; K-snippets of Operator::eval arms',
+                ref='DESIGN.md §5 C11, §11'),
     'C12': dict(cat='proof',
                 text='Symmetry of ==, antisymmetry of partial_cmp and reflexivity except NaN are discharged for ALL f64 payloads on Number, Numeric (same unit / unitless, incl. trichotomy), cmp_chan, Rgba; reflexivity and NaN-totality for Hsla-origin Color; css::Value::eq symmetry on one representative per constructor (bounded).',
                 note='Strings with different quote kinds (CssString::unquote) and nested lists/maps are out of reach; cross-unit symmetry only on probe magnitudes. Number trichotomy, Hsla cmp antisymmetry, color==color through css::Value and the comparison arms of Operator::eval exceed the quick budget: thorough-tier attempts, never counted as proved.',
                 tech='Kani proof harnesses over full-domain symbolic f64',
                 ref='DESIGN.md §5 C12'),
-    'C13': dict(cat='other',
-                text='OrderMap insert/get/get_mut/remove/contains_key and == are checked against an association-list view keyed by a non-trivial == (whole-view postconditions incl. "other entries unchanged"), for maps of at most 3 entries (bounded model checking of the real generic code; remove and == are instantiated per concrete size / key permutation).',
-                note='map.* Sass functions are closures in the function table (unreachable); duplicate-key error is in the evaluator.',
-                tech='Kani bounded proof harnesses + Verus on extracted OrderMap::get',
-                ref='DESIGN.md §5 C13'),
+    'C13': dict(cat='proof',
+                text='OrderMap::get/len/is_empty/new/get_item/set_item are verified by Verus for maps of ANY size and any key type whose == has a spec: get returns the value of the first entry whose key is == to the argument, None exactly when no key is == (unbounded, on text extracted from /repo each run). insert/get_mut/remove/contains_key and the order-insensitive == are checked by Kani against an association-list view keyed by a non-trivial == for maps of at most 3 entries (bounded), and at the css::Value instantiation (1in / 96px are the same key; a null value is present). The duplicate-key check of map literals is checked on the range extracted from the evaluator (bounded: two-entry literals).',
+                note='map.merge/deep-merge/keys/values and the key-path walk of map.get/has-key (find_value) are not covered. Bounded stand-ins are listed in evidence and not counted as proved.',
+                tech='Verus on extracted OrderMap read side + Kani bounded proof harnesses + K-snippet of the map-literal arm',
+                ref='DESIGN.md §5 C13, §11'),
     'C14': dict(cat='other',
-                text='css::Value::is_true (false exactly for false/null; 0, NaN, empty string/list/map truthy) for one representative payload per value constructor (bounded). The And/Or value selection of Operator::eval is a thorough-tier attempt only (CBMC has never finished it) and is not counted.',
-                note='The `not` arm and short-circuit evaluation live in the evaluator, which Kani cannot compile: NOT covered (the known `not null` defect is outside this check).',
-                tech='Kani proof harnesses per value constructor',
-                ref='DESIGN.md §5 C14'),
+                text='css::Value::is_true (false exactly for false/null), the `not` arm of the evaluator and the and/or branches of sass::BinOp::eval and Operator::eval — the latter three as statement ranges extracted from /repo each run, with the recursive operand evaluation replaced by a probe that records calls — for one representative payload per value constructor without nested values (bounded): value selection, right operand evaluated exactly when needed, left exactly once.',
+                note='Known findings: `not x` is not evaluated for lists, maps, strings, colors, !important and unicode ranges (7 listed obligations). Nested values (Paren, lists of values) and the parser-level handling of `not` are not covered.',
+                tech='Kani proof harnesses per value constructor; K-snippets of evaluator ranges',
+                ref='DESIGN.md §5 C14, §11'),
     'C17': dict(cat='proof',
-                text='@for: ValueRange::new (direction, exclusive end, no overflow; Kani, all i64) and the step contract of Iterator::next plus the induction lemma "yields a, a±1, … through/to b, then None forever" (Verus, unbounded, on text extracted from /repo each run).',
-                note='Unit conversion in SrcRange::evaluate, @if/@each/@while and define_multi are evaluator code: not covered. Numeric::new/Value abstracted as uninterpreted constructors in Verus.',
-                tech='Verus on extracted ValueRange + Kani harnesses',
-                ref='DESIGN.md §5 C17'),
+                text='@for: ValueRange::new (direction, exclusive end, no overflow; Kani, all i64) and the step contract of Iterator::next plus the induction lemma "yields a, a±1, … through/to b, then None forever" (Verus, unbounded, on text extracted from /repo each run); the unit conversion of the end value in SrcRange::evaluate on its extracted range (Kani, seven concrete unit cases: bounded).',
+                note='@if/@each/@while and define_multi are evaluator code: not covered. Numeric::new/Value abstracted as uninterpreted constructors in Verus.',
+                tech='Verus on extracted ValueRange + Kani harnesses + K-snippet of SrcRange::evaluate',
+                ref='DESIGN.md §5 C17, §11'),
     'C22': dict(cat='other',
                 text='Opt::collect_pos / collect_neg / map — the fold every no_placeholder uses, including the :not inversion — against the C22 statement for sequences of at most 4 items (bounded model checking of the real generic code).',
                 note='The selector structures that call the fold (recursive Box/Vec/String code with iterator closures) are not covered.',
                 tech='Kani bounded proof harnesses',
                 ref='DESIGN.md §5 C22'),
+    'C26': dict(cat='proof',
+                text='The index arithmetic of string.slice and string.insert — how a 1-based, possibly negative Sass index becomes a code-point offset, and how many code points are taken — on the statement ranges extracted from the closures in sass/functions/string.rs each run: for EVERY i64 index pair and EVERY string length the selected positions are exactly i through j (empty when the range is empty), and insert puts the text before position i clamped to the string (loop-free, complete).',
+                note='string.length / index (chars().count(), find), the case functions, the quotedness of results and the application of the offsets by chars().skip().take() are not covered (iterator/str code out of reach of both verifiers).',
+                tech='Kani proof harnesses on K-snippets (ranges of the closures extracted each run)',
+                ref='DESIGN.md §11'),
     'C28': dict(cat='proof',
-                text='index_of (1..n and -n..-1 normalisation, result < len) for all f64 and all lengths up to 2^40, and Number::into_integer (complete); get_list shape is a thorough-tier attempt only (exceeds 300 s) and is not counted.',
-                note='nth/set-nth/join/append/zip/index are closures in the function table: unreachable; error text is stubbed (error presence is checked).',
-                tech='Kani proof harness with fmt::format stubbed',
-                ref='DESIGN.md §5 C28'),
+                text="index_of (1..n and -n..-1 normalisation, result < len) for all f64 and all lengths up to 2^40, and Number::into_integer (complete); the separator choice of list.join and list.append for all 4x4(x4) combinations (complete), join's bracket choice, list.separator, list.index (first == position) and zip's truncation on ranges extracted from the closures (bounded where lists are involved).",
+                note='nth/set-nth bodies beyond index_of, get_list (thorough-tier attempt), maps/arglists as lists are not covered; error text is stubbed (error presence is checked).',
+                tech='Kani proof harnesses; K-snippets of the list function closures',
+                ref='DESIGN.md §5 C28, §11'),
     'C31': dict(cat='proof',
                 text='Channel-range postconditions of Rgba::new/from_rgb/from_rgba/set_alpha, cap, Hsla::new, Hwba::new, Color::set_alpha and of the rgb<->hsl<->hwb conversions, max_min_largest, same-channels => == (all f64, complete). deg_mod itself is NOT verified: its callers are checked against an assumed contract of it.',
                 note='f64 % is not modelled by CBMC and Verus has no float arithmetic: deg_mod\'s contract is an unchecked assumption (listed in evidence); exact rgb->hsl->rgb round trip is attempted in the thorough tier only and reported as not proved on timeout. NaN inputs are excluded from range obligations.',
                 tech='Kani function contracts + proof harnesses over all f64',
                 ref='DESIGN.md §5 C31'),
     'C32': dict(cat='proof',
-                text='Laws of the Color methods the Sass functions call: invert∘invert = id (rgb, hsl), invert weight 0, rotate_hue(360) = id, rotate_hue(d) then (-d) for |d| <= 360, alpha untouched, set_alpha clamping (all f64 in range).',
-                note='The Sass-level functions (mix, lighten, scale, …) are closures in the function table: unreachable. Hue laws rest on the assumed (unchecked) contract of deg_mod, which is exact only on [-360, 720].',
-                tech='Kani proof harnesses over all f64',
-                ref='DESIGN.md §5 C32'),
+                text='Laws of the Color methods the Sass functions call: invert∘invert = id (rgb, hsl), invert weight 0, rotate_hue(360) = id, rotate_hue(d) then (-d) for |d| <= 360, alpha untouched, set_alpha clamping; and the channel arithmetic of lighten, darken, saturate, desaturate, grayscale and complement on ranges extracted from the closures each run: the channel moves by exactly the amount, clamped to 0..100%, other channels unchanged, darken undoes lighten when nothing was clamped (all f64 in range, complete).',
+                note='mix, adjust, scale, change, opacify/transparentize closures are not covered. Hue laws rest on the assumed (unchecked) contract of deg_mod, which is exact only on [-360, 720].',
+                tech='Kani proof harnesses over all f64; K-snippets of the color function closures',
+                ref='DESIGN.md §5 C32, §11'),
 }
 
 NA = {
@@ -82,7 +87,6 @@ NA = {
     'C23': 'selector algebra (see C19)',
     'C24': 'selector algebra (see C19)',
     'C25': 'selector algebra and selector parser (see C19)',
-    'C26': 'index arithmetic is inline in closures passed to def!; there is no function to put a contract on and the closures are only reachable through the function table',
     'C27': 'escaping is Peekable<Chars> loops and core::fmt: CssString::unquote on a 3-byte string with one symbolic digit did not finish in 200 s; Verus has no str/char iteration',
     'C29': 'built-in functions are closures in LazyLock tables whose construction runs the parser; transcendental functions are over-approximated by CBMC',
     'C30': 'same as C29',
